@@ -46,7 +46,10 @@ def run_case(case):
 
         def body():
             self.run()
-            sc.point(("exit", name))
+            # a process that has put items on a multiprocessing.Queue cannot exit before its feeder thread has flushed them
+            # into the pipe, whose capacity is bounded: modelled as "not more than `pipe` results waiting to be read"
+            pipe = case.get("pipe")
+            sc.point(("exit", name), (lambda: True) if pipe is None else (lambda: len(state["resq"].items) <= pipe))
             sc.log("proc_exit", name)
         sc.point(("start_proc", name))
         self._lt = sc.spawn(name, body)
@@ -60,7 +63,12 @@ def run_case(case):
         from windpyutils.parallel import pools as mod
         names = ["work", "results"]
         saved = (mod.Queue, mod.FunctorWorker.__dict__.get("start"), mod.FunctorWorker.__dict__.get("join"))
-        mod.Queue = lambda maxsize=0: FlakyQueue(sc, names.pop(0), maxsize, qrng, case.get("flaky", 0.0))
+        def mkq(maxsize=0):
+            q = FlakyQueue(sc, names.pop(0), maxsize, qrng, case.get("flaky", 0.0))
+            if q.name == "results":
+                state["resq"] = q
+            return q
+        mod.Queue = mkq
         mod.FunctorWorker.start, mod.FunctorWorker.join = fake_start, fake_join
 
         def main_fn():
@@ -77,7 +85,7 @@ def run_case(case):
         saved = (wmod.FunRunner.WORK_QUEUE, wmod.FunRunner.RESULTS_QUEUE, wmod.FunRunner.__dict__.get("start"),
                  wmod.FunRunner.__dict__.get("join"))
         wmod.FunRunner.WORK_QUEUE = FlakyQueue(sc, "work", case["cap"], qrng, 0.0)
-        wmod.FunRunner.RESULTS_QUEUE = FlakyQueue(sc, "results", 0, qrng, case.get("flaky", 0.0))
+        wmod.FunRunner.RESULTS_QUEUE = state["resq"] = FlakyQueue(sc, "results", 0, qrng, case.get("flaky", 0.0))
         wmod.FunRunner.start, wmod.FunRunner.join = fake_start, fake_join
 
         def main_fn():
@@ -144,7 +152,8 @@ class P(Prop):
     thorough_n = 12000
     trusted = ["controlled scheduler + fake queues (harness/sched.py): queue operations atomic, FIFO; a process as a thread",
                "module-level rebinding of Queue / FunRunner queues / Process.start, join inside the sandboxed child"]
-    assumptions = ["multiprocessing.Queue is FIFO per producer and the work queue is bounded as constructed; a non-blocking get may miss an item in transit (modelled, exercised by the 'flaky' cases)",
+    assumptions = ["a worker process cannot exit while more than `pipe` of the results it has put are unread (bounded pipe behind multiprocessing.Queue): exercised on the implementation side only, the Coq model has no pipe",
+                   "multiprocessing.Queue is FIFO per producer and the work queue is bounded as constructed; a non-blocking get may miss an item in transit (modelled, exercised by the 'flaky' cases)",
                    "the mapped function returns normally",
                    "worker processes share nothing with the parent but the two queues"]
     rule = ("One case = kind (FunctorMap / mul_p_map) x workers 1-3 x capacity of the work queue x history of calls (inputs of length 0-8 incl. "
@@ -162,7 +171,8 @@ class P(Prop):
             d = [rng.randint(0, 9) for _ in range(rng.choice([0, 1, 2, 3, 4, 5, 6, 8]))]
             hist.append([d, rng.randint(1, 3) if kind == "map" else 1])
         return dict(kind=kind, workers=W, cap=(W if kind == "map" else rng.choice([1, 2, 4])), hist=hist,
-                    seed=rng.randrange(1 << 30), policy=rng.choice(POLICIES), flaky=rng.choice([0.0, 0.0, 0.3, 0.7]))
+                    seed=rng.randrange(1 << 30), policy=rng.choice(POLICIES), flaky=rng.choice([0.0, 0.0, 0.3, 0.7]),
+                    pipe=rng.choice([None, None, 0, 1, 3]))
 
     def generate(self, rng, tier, n):
         for _ in range(n):
@@ -177,7 +187,7 @@ class P(Prop):
         for b in base:
             for pol in POLICIES:
                 for sd in range(2 if tier == "quick" else 20):
-                    yield dict(b, seed=sd, policy=pol, flaky=[0.0, 0.5][sd % 2])
+                    yield dict(b, seed=sd, policy=pol, flaky=[0.0, 0.5][sd % 2], pipe=[None, 0][(sd // 2) % 2])
 
     def impl(self, case):
         return run_case(case)
